@@ -253,9 +253,12 @@ func decodePointsCompressed(d *decoder, level int, target []Point) {
 			return
 		}
 		idx := int(idxEncoded)
-		target[idx].X = d.readFloat64()
-		target[idx].Y = d.readFloat64()
-		target[idx].Z = d.readFloat64()
+		target[idx].X = d.readCoordinate()
+		target[idx].Y = d.readCoordinate()
+		target[idx].Z = d.readCoordinate()
+		if d.err != nil {
+			return
+		}
 	}
 }
 
